@@ -311,8 +311,12 @@ class CallMixin:
             return self.call_method(f, n, st)
         fsrc = ast.unparse(f)
         if fsrc in self.c.calls:
+            cc = self.eng.prop.contracts[self.c.calls[fsrc]]
             args, kw = self.args_of(n, st)
-            return self.call_contract(self.eng.prop.contracts[self.c.calls[fsrc]], args, kw, st, n)
+            if isinstance(f, ast.Subscript) and len(cc.params) == len(args) + len(kw) + 1:
+                # table[key](args): the contract of the table takes the key as its first parameter
+                args = [self.ev(f.slice, st)] + args
+            return self.call_contract(cc, args, kw, st, n)
         raise Unsupported('call of %s' % ast.unparse(f))
 
     def args_of(self, n, st, cc=None):
@@ -358,6 +362,26 @@ class CallMixin:
                 return v
             finally:
                 self.in_old = was
+        if name == 'head':
+            # spec: value of the expression at the head of the current iteration of the innermost loop
+            hs = getattr(self, 'head_stack', [])
+            if not hs:
+                raise ContractError('head() outside a loop')
+            h = hs[-1][1]
+            if len(n.args) == 2:
+                # head(e, k): at the head of the current iteration of the enclosing loop number k
+                want = n.args[1].value
+                cands = [snap for o_, snap in hs if o_ == want]
+                if not cands:
+                    raise ContractError('head(.., %s): not inside loop %s' % (want, want))
+                h = cands[-1]
+            tmp = h.copy()
+            tmp.locals = {**{k: v for k, v in st.locals.items() if v is not None}, **{k: v for k, v in h.locals.items() if v is not None}}
+            tmp.old = st.old
+            tmp.axd = st.axd
+            tmp.pc = st.pc
+            tmp.pcd = st.pcd
+            return self.ev(n.args[0], tmp)
         if name in ('all', 'any') and len(n.args) == 1 and isinstance(n.args[0], (ast.GeneratorExp, ast.ListComp)):
             return SV(T.Bool, self.quantify(n.args[0], st, name == 'all'))
         if name == 'implies':
